@@ -11,17 +11,17 @@ type keeperT = keeper.Keeper
 // same-block restart, short addresses).
 
 var (
-	nbWide   = ReqOpts{MaxProv: 2, OnlyState: -1}                                 // new batch, <=2 providers, bindings present or not
-	nbMod    = ReqOpts{MaxProv: 2, OnlyState: -1, Module: true}                   // + contexts of another module (callbacks)
-	nbOne    = ReqOpts{MaxProv: 1, OnlyState: -1}                                 // new batch, one provider
-	exLife   = ReqOpts{MaxProv: 2, OnlyState: -1, NoSlash: true, OneOutput: true} // expiry, lifecycle-focused (slash fraction 0)
-	exSlash  = ReqOpts{MaxProv: 1, OnlyState: -1, OneOutput: true}                // expiry, one provider, slashing symbolic
-	exMod    = ReqOpts{MaxProv: 2, OnlyState: -1, NoSlash: true, Module: true}    // expiry with callbacks and all output shapes
-	exOne    = ReqOpts{MaxProv: 1, OnlyState: -1, NoSlash: true, OneOutput: true} // expiry, smallest
-	rsWide   = ReqOpts{MaxProv: 2, OnlyState: -1, OneOutput: true}                // respond, <=2 requests in the batch
-	rsMod    = ReqOpts{MaxProv: 2, OnlyState: -1, Module: true, NoSlash: true}    // respond with callbacks
-	rsOne    = ReqOpts{MaxProv: 1, OnlyState: -1, OneOutput: true}                // respond, one request
-	cmOne    = ReqOpts{MaxProv: 1, OnlyState: -1, Module: true}                   // context messages
+	nbWide   = ReqOpts{MaxProv: 2, OnlyState: -1}                                                // new batch, <=2 providers, bindings present or not
+	nbMod    = ReqOpts{MaxProv: 2, OnlyState: -1, Module: true}                                  // + contexts of another module (callbacks)
+	nbOne    = ReqOpts{MaxProv: 1, OnlyState: -1}                                                // new batch, one provider
+	exLife   = ReqOpts{MaxProv: 2, OnlyState: -1, NoSlash: true, OneOutput: true}                // expiry, lifecycle-focused (slash fraction 0)
+	exSlash  = ReqOpts{MaxProv: 1, OnlyState: -1, OneOutput: true}                               // expiry, one provider, slashing symbolic
+	exMod    = ReqOpts{MaxProv: 2, OnlyState: -1, NoSlash: true, Module: true, ModuleOnly: true} // expiry with callbacks and all output shapes
+	exOne    = ReqOpts{MaxProv: 1, OnlyState: -1, NoSlash: true, OneOutput: true}                // expiry, smallest
+	rsWide   = ReqOpts{MaxProv: 2, OnlyState: -1, OneOutput: true}                               // respond, <=2 requests in the batch
+	rsMod    = ReqOpts{MaxProv: 2, OnlyState: 0, Module: true, ModuleOnly: true, NoSlash: true}  // respond with callbacks
+	rsOne    = ReqOpts{MaxProv: 1, OnlyState: -1, OneOutput: true}                               // respond, one request
+	cmOne    = ReqOpts{MaxProv: 1, OnlyState: -1, Module: true}                                  // context messages
 	bmPlain  = BindOpts{NT: 0, NV: 0}
 	wdQuick  = WdOpts{LenP0: 20, LenP1: 20}
 	gnQuick  = ReqOpts{MaxProv: 1, OnlyState: -1}
@@ -208,3 +208,33 @@ func C20_DeterminismExpiry() {
 	focus = "C20"
 	sceneDeterminism(ReqOpts{MaxProv: 1, OnlyState: -1, NoSlash: true, OneOutput: true}, true)
 }
+
+// frequency == timeout: expiry and next start in one block; two failures of one provider in one block
+var rtQuick = ReqOpts{MaxProv: 1}
+
+func C11_Restart()     { focus = "C11"; sceneRestart(rtQuick) }
+func C01_Restart()     { focus = "C01"; sceneRestart(rtQuick) }
+func C10_Restart()     { focus = "C10"; sceneRestart(rtQuick) }
+func C04_DoubleSlash() { focus = "C04"; sceneDoubleSlash() }
+func C03_DoubleSlash() { focus = "C03"; sceneDoubleSlash() }
+func C14_DoubleSlash() { focus = "C14"; sceneDoubleSlash() }
+
+// ---- scenes a property depends on through the shared state invariant (queue, bookkeeping)
+func C06_NewBatchByVolume()       { focus = "C06"; sceneNewBatch(nbByVol) }
+func C06_NewBatchByTime()         { focus = "C06"; sceneNewBatch(nbByTime) }
+func C01_Pause()                  { focus = "C01"; sceneCtxMsg(opPause, cmOne) }
+func C01_Start()                  { focus = "C01"; sceneCtxMsg(opStart, cmOne) }
+func C01_Kill()                   { focus = "C01"; sceneCtxMsg(opKill, cmOne) }
+func C02_Pause()                  { focus = "C02"; sceneCtxMsg(opPause, cmOne) }
+func C02_Start()                  { focus = "C02"; sceneCtxMsg(opStart, cmOne) }
+func C02_Kill()                   { focus = "C02"; sceneCtxMsg(opKill, cmOne) }
+func C08_Start()                  { focus = "C08"; sceneCtxMsg(opStart, cmOne) }
+func C12_Pause()                  { focus = "C12"; sceneCtxMsg(opPause, cmOne) }
+func C12_Start()                  { focus = "C12"; sceneCtxMsg(opStart, cmOne) }
+func C12_Kill()                   { focus = "C12"; sceneCtxMsg(opKill, cmOne) }
+func C16_Pause()                  { focus = "C16"; sceneCtxMsg(opPause, cmOne) }
+func C16_Start()                  { focus = "C16"; sceneCtxMsg(opStart, cmOne) }
+func C16_Update()                 { focus = "C16"; sceneCtxMsg(opUpdate, cmOne) }
+func C13_Bind()                   { focus = "C13"; sceneBindingMsg(opBind, bmPlain) }
+func C13_Enable()                 { focus = "C13"; sceneBindingMsg(opEnable, bmPlain) }
+func C20_DeterminismTwoContexts() { focus = "C20"; sceneDeterminismTwo() }
